@@ -893,6 +893,13 @@ def corpus_decks():
                          [{'id': 1, 'lits': [-1, 7, 2], 'imp': 1},
                           {'id': 2, 'lits': [-1, 8, 3, 2], 'imp': 1},
                           {'id': 3, 'lits': [1], 'imp': 0}]), args))
+    # a flagged macrobody: NotImplementedError
+    body = {'id': 5, 'flag': '*', 'text': MULTI[2][0], 'mcnp': MULTI[2][1],
+            'cls': CLASS_OF[MULTI[2][2][0]],
+            'aux': [CLASS_OF[f_] for f_ in MULTI[2][2][1:]],
+            'sides': MULTI[2][3], 'single': False, 'locus': None, 'pool': None}
+    out.append((deck([card(1, '', 8), body],
+                     [{'id': 1, 'lits': [-1], 'imp': 1}, skip]), []))
     # one-sheet cone (two TRIPOLI-4 parts) flagged, weird flag after a star
     cone = {'id': 6, 'flag': '+', 'text': 'kz 0 1 1', 'mcnp': 1,
             'cls': CLASS_OF[('CONEZ', (0.0, 0.0, 0.0, 45.0))],
@@ -1210,7 +1217,13 @@ def run(res, tier, seed, proofs_ok):
     corpus = [(witness(kind), args)
               for kind in ('dedup', 'unused', 'trcl', 'trclcopy', 'trclskipped')
               for args in ([], ['--skip-deduplication'])] + corpus_decks()
+    import c16_cov
+    cov = c16_cov.LineCov(c16_cov.anchored_functions())
+    cov_upto = 150                  # traced conversions: corpus + first decks
+    cov.__enter__()
     for i in range(-len(corpus), n_valid + n_bad):
+        if i == cov_upto:
+            cov.__exit__()
         if i < 0:                   # fixed corpus first (not counted below)
             deck, args = corpus[i]
         else:
@@ -1251,6 +1264,15 @@ def run(res, tier, seed, proofs_ok):
     res.extra['guard'] = {'flagged decks converted (theorems apply, no '
                           'guard)': inside,
                           'of which with a non-empty block': outside}
+    total, missing = cov.missing(c16_cov.UNREACHABLE)
+    res.obligation(f'line coverage ({total} lines of get_surfaces, '
+                   'recuperateBoundaryCondition, conversionBoundCond, '
+                   'writeT4BoundCond, remove_duplicate_surfaces, '
+                   'renumber_surfaces, number_items, transformation, '
+                   'extract_tr_surf_ids, remove_unused_volumes by the first '
+                   f'{cov_upto + len(corpus)} tied conversions)',
+                   not missing, '; '.join(f'{n}:{ln} {t}' for n, ln, t in
+                                          missing[:8]))
     bad, errs = common.run_case_files('c16_run', HEADER, 'run_w_case',
                                       'check_run_w', cases)
     res.obligation(f'tie:run ({len(cases)} conversions: Model.run = SURF ids/'
